@@ -5,6 +5,8 @@ package main
 
 import (
 	"go/types"
+	"os"
+	"path/filepath"
 	"strings"
 )
 
@@ -58,7 +60,7 @@ func (c *Ctx) genRefinements(ct *Contract) ([]*FuncVC, []string) {
 		rc := *ct
 		rc.Key = fk
 		rc.IsIface = false
-		vc := c.genFunc(cd.fn, &rc, nil)
+		vc := c.genFunc(cd.fn, &rc, c.houdini(cd.fn, &rc, c.workDir()))
 		vc.Key = fk + "~refines~" + ifaceName + "." + method
 		for _, o := range vc.Obls {
 			o.Name = strings.Replace(o.Name, "#", "#refine:", 1)
@@ -66,4 +68,10 @@ func (c *Ctx) genRefinements(ct *Contract) ([]*FuncVC, []string) {
 		out = append(out, vc)
 	}
 	return out, nil
+}
+
+func (c *Ctx) workDir() string {
+	d := filepath.Join(verifDir, ".work", "refine")
+	os.MkdirAll(d, 0o755)
+	return d
 }
